@@ -272,6 +272,23 @@ def sbm_cap_case(rng, profiles):
                 lag_time=True, delta_t=1000., obj=obj, yk=np.array([1.]), prf=prf)
 
 
+def sbm_stall_case(rng, profiles):
+    """a small bubble of a soluble gas with a tiny dissolution threshold: every component is cut off
+    (m_i/m0_i < fdis) before the total mass fraction falls below fdis, the wrapper then reports zero
+    slip and the run ends by the stall test (us <= 0)"""
+    from tamoc import dbm
+    name, prf = rng.choice(profiles)
+    comp = rng.choice([['ethane'], ['oxygen'], ['ethane', 'methane'], ['nitrogen', 'oxygen'], ['methane']])
+    yk = random_yk(rng, len(comp))
+    with quiet():
+        obj = dbm.FluidParticle(comp, fp_type=0)
+    zhi = min(1500., prf.z_max - 1.)
+    return dict(profile=name, descr=dict(kind='gas', composition=comp, fp_type=0, yk=[float(v) for v in yk]),
+                z0=rng.uniform(min(300., zhi), zhi), x0=0., y0=0., de=rng.uniform(0.4e-3, 1.0e-3),
+                dT=rng.choice([None, rng.uniform(0.5, 5.)]), K=rng.uniform(1., 6.), K_T=1., fdis=10 ** rng.uniform(-9, -7),
+                t_hyd=0., lag_time=True, delta_t=rng.choice([10., 50., 100.]), obj=obj, yk=yk, prf=prf)
+
+
 class BudgetExceeded(Exception):
     """raised from inside the wrapped profile look-up when a simulation needs more right-hand-side
     evaluations than the scenario budget (VODE occasionally takes 1e4+ tiny steps)"""
